@@ -13,9 +13,13 @@ P["C01"]={"level":"proof","design_ref":"6 C01",
  "funcs":["snaps.escapeEndChars","snaps.unescapeEndChars"]+storage+["snaps.matchSnapshot","snaps.matchJSON","snaps.matchYAML","snaps.takeYAMLSnapshot"],
  "explanation":"Round trip through the file format for every body text: addNewSnapshot appends a record whose lookup is the appended body (lemmas add_shape, RT_add, WF_add over the real Fprintf), getPrevSnapshot computes exactly the first-occurrence lookup (loop invariants over the scanner), and a matching stored body makes each multi-entry match* body pass without any effect (postcondition replay: no Error, no Log, no write). Values are uninterpreted lines, so neither content, UTF-8 validity nor length matters; CR-terminated lines are excluded as in the statement."}
 P["C03"]={"level":"proof","design_ref":"6 C03",
- "funcs":registry+standalone[2:]+cleanups+bodies+["snaps.addNewSnapshot"],
- "only":["#ensures#(count|cleanup|id|inv|stable|ordinal|iso|wf|invalid|matcher_errors)","#pre\\(\\(\\*sync(Standalone)?Registry\\)","#vacuity","lemma\\.", "#ensures#\\d", "#frame#M"],
+ "funcs":registry+standalone[2:]+cleanups+bodies+["snaps.addNewSnapshot","snaps.updateSnapshot"],
+ "only":["#ensures#(count|cleanup|id|inv|stable|ordinal|iso|wf|other|created_others|updated_others|invalid|matcher_errors)","#pre\\(\\(\\*sync(Standalone)?Registry\\)","#vacuity","lemma\\.", "#ensures#\\d", "#frame#M"],
  "explanation":"Ordinal contract of both registries (k-th call of test N on a file gets id fmtID(N,k); other keys framed), ordinal consumed on every path of every match* body including validation and matcher failures, reset by the Cleanup closure; isolation lemmas ISO_add_found/ISO_add_body and WF_add for appends (restricted by K2's hypothesis)."}
+P["C04"]={"level":"proof","design_ref":"6 C04",
+ "funcs":["snaps.removeSnapshot","snaps.overwriteFile","snaps.updateSnapshot","snaps.upsertStandaloneSnapshot"]+bodies,
+ "only":["snaps\\.(removeSnapshot|overwriteFile|updateSnapshot|upsertStandaloneSnapshot)#","#ensures#(updated|updated_lookup|updated_others|equal_nowrite|replay|created|mismatch)","#pre\\((updateSnapshot|upsertStandaloneSnapshot)\\)","#vacuity"],
+ "explanation":"updateSnapshot rewrites the file to exactly: tokens before and including the header, the new body, the terminator, the tokens after the old terminator (postcondition content = updShape, proved from the loop invariant over the real scanner/buffer code and overwriteFile's Truncate+Seek+Write); lemmas U_own, U_wf, U_other_* turn that into: the slot replays the new value, every other slot keeps found/body, well-formedness is kept. In the match* bodies an equal value returns before any write (equal_nowrite) and an update stores exactly the new formatted value (updated_lookup); standalone files are replaced wholesale. Restricted by uniqueHdr/lacks/apart (K2 class)."}
 P["C05"]={"level":"proof","design_ref":"6 C05",
  "funcs":["snaps.shouldUpdate","snaps.shouldCreate"]+bodies+wrappers,
  "only":["snaps\\.should","#ensures#(ci|missing_ro|created|updated|mismatch|replay|equal_nowrite|nocall|invalid|matcher_errors)","#pre\\((addNewSnapshot|updateSnapshot|upsertStandaloneSnapshot)\\)","#vacuity","#frame#fs"],
@@ -42,7 +46,6 @@ P["C20"]={"level":"proof","design_ref":"6 C20",
 json.dump(P,open('/verif/contracts/properties.json','w'),indent=1)
 na={
  "C02":"in progress: prettyDiff/diff engine contracts not built yet",
- "C04":"in progress: updateSnapshot contracts not built yet",
  "C07":"in progress: Clean contracts not built yet",
  "C08":"in progress",
  "C09":"in progress",
